@@ -21,6 +21,15 @@ reaches the terminal's files (self._term_output_file.write/flush, os.read; throu
 calls), with: is it a public direct writer, does the library's class override it, is the
 override decorated with @lock_tty (or its whole body inside `with _tty_lock, _tty_lock:`).
 
+src/term_image/utils.py, `_process_start_wrapper` / `_process_run_wrapper` -> a third definition
+`start_handover : handover_table`: the if / elif / else chain that decides what the child is handed
+(`self._tty_lock = ...`), with its CONDITIONS translated (boolean expressions over
+`isinstance(_tty_lock, _rlock_type)` and module globals of utils.py, i.e. library settings such as
+`_queries_enabled`; anything else in a condition is refused), the outcome of every branch (a new
+`mp_RLock()` replaces the global and is handed over / the global is handed over / None), whether the
+chain is the body of `with _tty_lock:`, and whether the run wrapper installs what it was handed.
+The model's start step is compared with it (C14_start_handover_ignores_configuration).
+
 A site is HELD when it is lexically inside `with _tty_lock, _tty_lock:` (or two directly
 nested single withs) or inside a function decorated with `@lock_tty`; the body of a nested
 def / lambda is not held by what encloses its definition.  A read_tty / read_tty_all site
@@ -417,6 +426,156 @@ def scan_screen(repo: Path):
     return rows, version
 
 
+# ------------------------------------------------------------------ the hand-over decision
+
+CONF_GLOBALS = {"_queries_enabled": 0, "_swap_win_size": 1, "_query_timeout": 2, "_tty_fd": 3}
+UTILS_REL = PKG + "/utils.py"
+
+
+def module_globals(tree):
+    """names bound at module level of utils.py by plain assignment (the library's settings / state)"""
+    names = set()
+    for st in ast.walk(ast.Module(body=[x for x in tree.body if not isinstance(
+            x, (ast.FunctionDef, ast.AsyncFunctionDef, ast.ClassDef))], type_ignores=[])):
+        if isinstance(st, ast.Name) and isinstance(st.ctx, ast.Store):
+            names.add(st.id)
+    return names
+
+
+def hcond(e, globs, local_names, where):
+    if isinstance(e, ast.Constant) and isinstance(e.value, bool):
+        return "CTrue" if e.value else "CFalse"
+    if isinstance(e, ast.Call) and ast.unparse(e) == "isinstance(_tty_lock, _rlock_type)":
+        return "CThreadLock"
+    if isinstance(e, ast.UnaryOp) and isinstance(e.op, ast.Not):
+        return "(CNot %s)" % hcond(e.operand, globs, local_names, where)
+    if isinstance(e, ast.BoolOp):
+        op = "CAnd" if isinstance(e.op, ast.And) else "COr"
+        parts = [hcond(v, globs, local_names, where) for v in e.values]
+        out = parts[-1]
+        for x in reversed(parts[:-1]):
+            out = "(%s %s %s)" % (op, x, out)
+        return out
+    if isinstance(e, ast.Compare) and len(e.ops) == 1 and isinstance(e.left, ast.Name) and e.left.id == "_tty_fd" \
+            and ast.unparse(e.comparators[0]) == "-1" and isinstance(e.ops[0], (ast.Eq, ast.NotEq)):
+        return "(CConf 3)" if isinstance(e.ops[0], ast.NotEq) else "(CNot (CConf 3))"
+    if isinstance(e, ast.Name) and e.id not in local_names and e.id in globs and e.id not in ("_tty_lock", "_rlock_type"):
+        return "(CConf %d)" % CONF_GLOBALS.get(e.id, 9)
+    raise Unsupported(f"{where}:{getattr(e, 'lineno', '?')}: condition `{ast.unparse(e)}` of the lock hand-over is not "
+                      "translatable (only isinstance(_tty_lock, _rlock_type), module globals of utils.py, not / and / or)")
+
+
+def is_self_lock(t):
+    return isinstance(t, ast.Attribute) and t.attr == "_tty_lock" and isinstance(t.value, ast.Name) and t.value.id == "self"
+
+
+def plain(stmts):
+    """statements without doc strings, `pass` and warnings.warn(...) calls"""
+    out = []
+    for s in stmts:
+        if isinstance(s, ast.Pass):
+            continue
+        if isinstance(s, ast.Expr) and isinstance(s.value, ast.Constant):
+            continue
+        if isinstance(s, ast.Expr) and isinstance(s.value, ast.Call) and ast.unparse(s.value.func) in ("warnings.warn", "warn"):
+            continue
+        out.append(s)
+    return out
+
+
+def houtcome(stmts, where):
+    body = plain(stmts)
+    line = getattr(stmts[0], "lineno", "?") if stmts else "?"
+    if len(body) == 1 and isinstance(body[0], ast.Try) and not body[0].orelse and not body[0].finalbody:
+        t = body[0]
+        for hd in t.handlers:
+            hb = plain(hd.body)
+            if not (hd.type is not None and ast.unparse(hd.type) == "ImportError" and len(hb) == 1
+                    and isinstance(hb[0], ast.Assign) and len(hb[0].targets) == 1 and is_self_lock(hb[0].targets[0])
+                    and isinstance(hb[0].value, ast.Constant) and hb[0].value.value is None):
+                raise Unsupported(f"{where}:{hd.lineno}: handler of the lock creation is not "
+                                  "`except ImportError: self._tty_lock = None`")
+        body = plain(t.body)
+    if len(body) == 1 and isinstance(body[0], ast.Assign):
+        a = body[0]
+        tg = a.targets
+        if len(tg) == 2 and is_self_lock(tg[0]) and is_lock_name(tg[1]) and ast.unparse(a.value) == "mp_RLock()":
+            return "ONew"
+        if len(tg) == 1 and is_self_lock(tg[0]) and is_lock_name(a.value):
+            return "OGlobal"
+        if len(tg) == 1 and is_self_lock(tg[0]) and isinstance(a.value, ast.Constant) and a.value.value is None:
+            return "ONone"
+    raise Unsupported(f"{where}:{line}: a branch of the lock hand-over is none of `self._tty_lock = _tty_lock = "
+                      "mp_RLock()` / `self._tty_lock = _tty_lock` / `self._tty_lock = None`")
+
+
+def scan_handover(repo: Path):
+    path = repo / UTILS_REL
+    tree = ast.parse(path.read_text())
+    globs = module_globals(tree)
+    fns = {n.name: n for n in tree.body if isinstance(n, (ast.FunctionDef, ast.AsyncFunctionDef))}
+    for need in ("_process_start_wrapper", "_process_run_wrapper"):
+        if need not in fns:
+            raise Unsupported(f"{UTILS_REL}: {need}() not found at top level")
+    fn = fns["_process_start_wrapper"]
+    local_names = {a.arg for a in fn.args.args + fn.args.kwonlyargs} | {
+        n.id for n in ast.walk(fn) if isinstance(n, ast.Name) and isinstance(n.ctx, ast.Store)} - {"_tty_lock"}
+    declared = {x for n in ast.walk(fn) if isinstance(n, ast.Global) for x in n.names}
+    local_names -= declared
+
+    def touches(node):
+        return any((isinstance(n, ast.Name) and n.id == "_tty_lock" and isinstance(n.ctx, ast.Store)) or
+                   (is_self_lock(n) and isinstance(n.ctx, ast.Store)) for n in ast.walk(node))
+
+    # the chain: the one `if` statement (with its elifs) that binds `self._tty_lock` / `_tty_lock`
+    chains = []
+
+    def find(stmts, under):
+        for s in stmts:
+            if isinstance(s, ast.If) and touches(s):
+                chains.append((s, under))
+            elif isinstance(s, (ast.With, ast.AsyncWith)):
+                find(s.body, under or (isinstance(s, ast.With) and n_lock_items(s) >= 1))
+            elif isinstance(s, (ast.FunctionDef, ast.AsyncFunctionDef, ast.ClassDef)):
+                if touches(s):
+                    raise Unsupported(f"{UTILS_REL}:{s.lineno}: the terminal lock is bound inside a nested definition")
+            elif touches(s):
+                # an unconditional hand-over is a chain without branches
+                chains.append((s, under))
+
+    find(fn.body, False)
+    if len(chains) != 1:
+        raise Unsupported(f"{UTILS_REL}:{fn.lineno}: expected ONE statement deciding the lock hand-over in "
+                          f"_process_start_wrapper(), found {len(chains)}")
+    node, under = chains[0]
+    branches = []
+    if isinstance(node, ast.If):
+        cur = node
+        while True:
+            branches.append((hcond(cur.test, globs, local_names, UTILS_REL), houtcome(cur.body, UTILS_REL)))
+            if len(cur.orelse) == 1 and isinstance(cur.orelse[0], ast.If):
+                cur = cur.orelse[0]
+                continue
+            if not cur.orelse:
+                raise Unsupported(f"{UTILS_REL}:{cur.lineno}: the lock hand-over has no `else` (a child may be "
+                                  "started without `self._tty_lock`)")
+            els = houtcome(cur.orelse, UTILS_REL)
+            break
+    else:
+        els = houtcome([node], UTILS_REL)
+    # the run wrapper: `if self._tty_lock: _tty_lock = self._tty_lock`
+    rn = fns["_process_run_wrapper"]
+    installs = False
+    binds = [s for s in ast.walk(rn) if isinstance(s, ast.Assign) and any(is_lock_name(t) for t in s.targets)]
+    for s in plain(rn.body):
+        if isinstance(s, ast.If) and is_self_lock(s.test) and not s.orelse:
+            b = plain(s.body)
+            if len(b) == 1 and isinstance(b[0], ast.Assign) and len(b[0].targets) == 1 and is_lock_name(b[0].targets[0]) \
+                    and is_self_lock(b[0].value) and binds == [b[0]]:
+                installs = True
+    return {"under": under, "branches": branches, "else": els, "installs": installs, "line": node.lineno}
+
+
 def coq_str(s: str) -> str:
     return '"' + s.replace('"', '""') + '"'
 
@@ -429,6 +588,7 @@ def build(repo: Path | None = None) -> str:
     if not rows:
         raise Unsupported("no terminal site found")
     srows, version = scan_screen(repo)
+    ho = scan_handover(repo)
     items = []
     for mod, qual, line, callee, kind, held, cont, same in rows:
         items.append("  {| s_mod := %s; s_func := %s; s_line := %d; s_callee := %s; s_kind := %s;\n"
@@ -454,6 +614,13 @@ def build(repo: Path | None = None) -> str:
         ";\n".join("  {| m_name := %s; m_in_base := %s; m_touches_tty := %s; m_direct := %s; m_overridden := %s; m_locked := %s |}"
                     % ((coq_str(r[0]),) + tuple(str(x).lower() for x in r[1:])) for r in srows),
         "].",
+        "",
+        f"(* {UTILS_REL}:{ho['line']}, _process_start_wrapper / _process_run_wrapper: what the child process is handed *)",
+        "Definition start_handover : handover_table :=",
+        "  {| h_under_lock := %s;" % str(ho["under"]).lower(),
+        "     h_branches := [%s];" % "; ".join("(%s, %s)" % b for b in ho["branches"]),
+        "     h_else := %s;" % ho["else"],
+        "     h_run_installs := %s |}." % str(ho["installs"]).lower(),
         "",
     ])
 
